@@ -317,6 +317,20 @@ func checkC01(tier string) {
 			cases = append(cases, c)
 		}
 	}
+	// two named slice types with one underlying type: one is an argument type, the other a field type
+	for _, pl := range []struct{ name, call1, call2 string }{
+		{"equal", "deriveEqual_ID(a, b)", "deriveEqualNS_ID(x, y)"},
+		{"compare", "deriveCompare_ID(a, b) == 0", "deriveCompareNS_ID(x, y) == 0"},
+		{"hash", "deriveHash_ID(a) == 0", "deriveHashNS_ID(x) == 0"},
+		{"gostring", "deriveGoString_ID(a) == \"\"", "deriveGoStringNS_ID(x) == \"\""},
+		{"deepcopy", "func() bool { deriveDeepCopy_ID(a, b); return true }()", "func() bool { deriveDeepCopyNS_ID(x, y); return true }()"},
+	} {
+		id := idf()
+		src := "type TwA_ID []Flat\ntype TwB_ID []Flat\ntype TwS_ID struct {\n\tOutline TwA_ID\n\tN int\n}\n" +
+			"func twin_ID(a, b *TwS_ID, x, y TwB_ID) bool { return " + pl.call1 + " && " + pl.call2 + " }\n"
+		cases = append(cases, &e1Case{ID: id, Zero: "(*int)(nil)", Isolated: true, Extra: strings.ReplaceAll(src, "ID", id),
+			Tags: map[string]string{"plugin": pl.name, "form": "named-slice-twins"}})
+	}
 	// late names: the user names a call that only becomes typeable in pass 2 exactly like
 	// a helper that pass 1 mints (prefix_, prefix_1) for another type; alone in the package
 	for _, pl := range []struct{ prefix, main, late, body string }{
@@ -341,7 +355,7 @@ func checkC01(tier string) {
 		}
 	}
 	res := runE1(cases, "C01", 60, nil, 1)
-	aggregateE1(rep, "C01", cases, res, bound+"; x {Equal, Compare, Hash, DeepCopy, Clone, GoString}; call-site forms {closure in a package-level var, function body, package-level var initialiser, in-package _test file, one-argument curried form, nested derive call typeable only after a first pass} over depth <= 1; list helpers {Sort, Keys, Min, Max, Contains, Unique, Set, Union, Intersect, Filter, TakeWhile, All, Any, Fmap, Join, Traverse, Mem, Sort(Keys())} over "+ebound+"; name-pressure packages; chains of 4, 5 and 6 nested calls; _test-file calls next to calls needing a second pass; late-typeable calls named like a minted helper (prefix_, prefix_1) x {Equal, Compare, Hash, GoString, DeepCopy} x both source orders; both same-named imports appear together in the batches",
+	aggregateE1(rep, "C01", cases, res, bound+"; x {Equal, Compare, Hash, DeepCopy, Clone, GoString}; call-site forms {closure in a package-level var, function body, package-level var initialiser, in-package _test file, one-argument curried form, nested derive call typeable only after a first pass} over depth <= 1; list helpers {Sort, Keys, Min, Max, Contains, Unique, Set, Union, Intersect, Filter, TakeWhile, All, Any, Fmap, Join, Traverse, Mem, Sort(Keys())} over "+ebound+"; name-pressure packages; a named slice type as argument next to another named slice type with the same underlying type as a field (5 plugins); chains of 4, 5 and 6 nested calls; _test-file calls next to calls needing a second pass; late-typeable calls named like a minted helper (prefix_, prefix_1) x {Equal, Compare, Hash, GoString, DeepCopy} x both source orders; both same-named imports appear together in the batches",
 		"state = one program: (type shape, plugin, call-site form), placed in a scenario package with up to 59 others; transition = one run of the real goderive on the package plus one run of the Go type checker (go build / go test -run ^$ for the _test form) on sources + derived.gen.go, including bisection and confirmation runs that isolate a failing program; the oracle is exit 0 and zero compiler errors (covers unresolved, redeclared and not-assignable calls, missing and unused imports); non-trivial = every program")
 	rep.Cov["distinct_nontrivial"] = len(cases) - len(res.Failures)
 	rep.Finish()
